@@ -186,16 +186,21 @@ class WriteTool(BaseTool):
         # Find literal zone boundaries (``` fences)
         in_fence = False
         fence_start = 0
+        fence_len = 0
         offset = 0
         for line in content.split("\n"):
             line_start = offset
             offset += len(line) + 1  # +1 for the newline separator
             stripped = line.strip()
             if stripped.startswith("```"):
+                run_len = len(stripped) - len(stripped.lstrip("`"))
                 if not in_fence:
                     in_fence = True
                     fence_start = line_start
-                else:
+                    fence_len = run_len
+                elif run_len == fence_len and not stripped[run_len:].strip():
+                    # Same rule as the lexer: only a clean backtick run of the opener's length
+                    # closes the zone; a shorter run inside a longer fence is zone content.
                     in_fence = False
                     fence_end = line_start + len(line)
                     protected.append((fence_start, fence_end))
